@@ -60,4 +60,30 @@ META = {
         cases=(60, 1200), budget=(45, 420),
         minimums={"quick": {"evaluations": 8000, "distinct_nontrivial": 2000, "programs": 300, "leg_json": 1500}},
     ),
+    "C03": _m(
+        "one case = one generated program: a model (1-6 fields, required/default/factory, dataclass/NamedTuple/attrs/TypedDict/pydantic) x a recipe of 1-3 stacked "
+        "name_mapping providers with random subsets of map (dict / (pred, result) / (pred, callable); renames, nested paths, list indices, ellipsis, None), name_style "
+        "(16), trim_trailing_underscore, skip, only, as_list, omit_default (bool / predicates), extra_in (skip, forbid, target field, saturator), extra_out (skip, field, "
+        "extractor), valid by construction; run in 2 (every 4th case: 6) modes on inputs derived from the reference dump: full, each mapped key absent / ill-typed, each "
+        "branch node replaced by 6 wrong kinds, extra keys at root and nested nodes, extra list items, other mapping kinds. Compared with the reference layout model "
+        "(vlib/layout.py). distinct = (program, input, mode); non-trivial = reference verdict is not unspecified",
+        cases=(40, 800), budget=(50, 420),
+        minimums={"quick": {"programs": 200, "dumps": 400, "expected_ok": 800, "expected_reject": 2000, "opt_map": 100, "opt_name_style": 100, "opt_omit_default": 80,
+                            "opt_extra_in": 60, "opt_skip": 40, "opt_only": 30, "opt_as_list": 15, "distinct_nontrivial": 3000}},
+        assumptions=["reference layout model vlib/layout.py (DESIGN.md appendix B); empty branch nodes after sieving are compared modulo pruning; "
+                     "collection of unknown keys below the root and non-Mapping objects with .get are UNSPECIFIED"],
+    ),
+    "C05": _m(
+        "one case = one nested type (depth 2-4) mixing list/tuple-var/Sequence, Dict[str|int, .], fixed tuples, models of 5 kinds with default layouts and with "
+        "name_mapping layouts (renames, nested paths, list indices, name_style, as_list, ExtraForbid), Optional/Union leaves; a valid outer datum is corrupted at every "
+        "independent subset of <=4 planted positions (exhaustive when <=6 positions, else all singles + 40 sampled subsets; capped per case) with fault kinds wrong-type, "
+        "wrong-container, missing-key, unknown-key, extra-item, missing-item, bad-dict-key, union; loaded in 3 debug x 2 coercion modes. Oracle: planted positions vs. "
+        "absolute trails (ALL: equal multisets, every trail followable in the input; FIRST: one planted trail, no group; DISABLE: no trail). distinct = (type, datum, mode); "
+        "non-trivial = a fault below depth 1",
+        cases=(12, 300), budget=(50, 420),
+        minimums={"quick": {"evaluations": 6000, "distinct_nontrivial": 3000, "faults_2": 800, "faults_3": 200, "fault_wrong-type": 1000, "fault_missing-key": 500,
+                            "fault_wrong-container": 500, "fault_extra-item": 100, "fault_unknown-key": 100, "fault_union": 100, "shape_model_custom_layout": 30}},
+        assumptions=["missing keys of one dict node are expected as ONE NoRequiredFieldsLoadError at that node (likewise unknown keys under ExtraForbid); "
+                     "a length / container fault makes its node a leaf; unions are leaves (one UnionLoadError at their trail)"],
+    ),
 }
